@@ -97,6 +97,14 @@ pub fn parse(text: &str, hashed: bool) -> String {
     }
 }
 
+/// C04: everything the typed accessors of ast.rs reach from the root, in accessor order
+pub fn astwalk(text: &str) -> String {
+    let p = syntax::parse(text);
+    let mut out = Vec::new();
+    crate::ast_walk_gen::walk(&p.syntax_node(), &mut out);
+    format!("walk={} ne={}", out.join(" "), p.errors().len())
+}
+
 /// C01/C02 oracle on the implementation: leaves concatenate to the input, token ranges are
 /// running offsets, error ranges lie inside the text on char boundaries with non-empty message.
 pub fn oracle01(text: &str) -> String {
